@@ -856,7 +856,13 @@ func runSpec(prop string) int {
 			}
 			var next []st
 			timedOut := false
-			p.Map(tasks, func(tb []byte, out []byte, crash *pool.Crash) [][]byte {
+			p.MapD(tasks, func(out []byte) interface{} {
+				r := &result{}
+				if err := json.Unmarshal(out, r); err != nil {
+					panic(err)
+				}
+				return r
+			}, func(tb []byte, dec interface{}, crash *pool.Crash) [][]byte {
 				var t task
 				json.Unmarshal(tb, &t)
 				if time.Now().After(deadline) {
@@ -887,10 +893,7 @@ func runSpec(prop string) int {
 					addCrash(t, crash)
 					return nil
 				}
-				var r result
-				if err := json.Unmarshal(out, &r); err != nil {
-					panic(err)
-				}
+				r := dec.(*result)
 				transitions += r.Transitions
 				mutating += r.Mutating
 				poisoned += r.Poisoned
